@@ -206,6 +206,13 @@ class DocGen:
             return rng.choice([("str", "id1"), ("int", "7")])
         k = self.sv.kind(b)
         if k == "scalar":
+            # custom scalars built from SDL accept every literal without variables (a2b8a10): also null, lists, objects
+            r = rng.random()
+            if r < 0.25:
+                return ("obj", [("k%d" % i, rng.choice([("int", "1"), ("str", "s"), ("null",), ("list", [("int", "2")]),
+                                                        ("obj", [("n", ("bool", True))])])) for i in range(rng.randint(0, 3))])
+            if r < 0.35:
+                return ("list", [("int", "1"), ("obj", [("a", ("str", "x"))])][:rng.randint(0, 2)])
             return rng.choice([("int", "5"), ("str", "cs"), ("bool", True), ("float", "2.5"), ("enum", "ANY")])
         if k == "enum":
             return ("enum", rng.choice(self.sv.types[b]["values"])["name"])
